@@ -45,6 +45,34 @@ def agrees(i, m):
             and vlib.canon(strip(i)) == vlib.canon(m.get("spec")))
 
 
+def detail(case, k, why, st):
+    """which step makes the rule malformed, for the reasons added with the typed conditions / unknown references"""
+    r = case["rules"][k]
+    steps = [(lst, s2) for lst in ("execute", "on_error") for s2 in (r.get(lst) or [])]
+    if why == "bad_condition":
+        conds = st["rules"][k].get("conds", []) if k < len(st.get("rules", [])) else []
+        texts = [s2.get("if") for _, s2 in steps if s2.get("cond", "absent") != "absent"]
+        for cls, text in zip(conds, texts):
+            if cls != "expr:bool":
+                ty = cls[5:] if cls.startswith("expr:") else {"invalid": "does not compile"}.get(cls, cls)
+                return (f": the condition `if: {text}` is not a boolean expression (static type: {ty}); at run time "
+                        "anything but the bool true counts as false, the guarded mechanism would be skipped")
+    if why == "unknown_mechanism":
+        ids = {(d["kind"], d["id"]) for d in case.get("cat", gen_factory.CATALOGUE)}
+        for lst, s2 in steps:
+            order = ["error_handler"] if lst == "on_error" else gen_factory.LOOKUP_ORDER
+            first = next((key for key in order if key in s2["keys"]), None)
+            if first and (gen_factory.KIND_OF[first], s2["keys"][first]) not in ids:
+                return (f": `{first}: {json.dumps(s2['keys'][first])}` is not defined in the mechanisms catalogue "
+                        f"for that kind")
+    if why == "bad_override":
+        for _, s2 in steps:
+            ex = list(gen_factory._expression_texts(s2.get("config")))
+            if ex:
+                return f": rule-level config with expressions {json.dumps(ex)}"
+    return ""
+
+
 def describe(case, i, m):
     """(text naming the clause of the property the disagreement is about, index of the rule, concrete?)"""
     i = strip(i)
@@ -72,7 +100,7 @@ def describe(case, i, m):
         if a.get("load") != b.get("load"):
             if a.get("load") == "accepted":
                 return (nth + f"a malformed rule is accepted when its rule set is loaded (specification: rejected, "
-                              f"{why})", k, True)
+                              f"{why}{detail(case, k, why, st)})", k, True)
             return nth + "a well-formed rule is rejected when its rule set is loaded", k, True
         for p, (x, y) in enumerate(zip(a.get("probes", []), b.get("probes", []))):
             if x != y:
@@ -268,11 +296,30 @@ def run(R):
     # or structure but print alike (some of them refused by the mechanism), in any order
     n_look = 260 if quick else 4000
     cases += [gen_factory.gen_lookalike_case(R.rng) for _ in range(n_look)]
+    # `expressions` of cel / remote authorizers overridden on the rule level: boolean ones, statically non-boolean,
+    # dyn-typed, not compiling, malformed shapes; any order in one factory
+    n_expr = 120 if quick else 2000
+    cases += [gen_factory.gen_expression_case(R.rng) for _ in range(n_expr)]
     n_random = len(cases) - len(corpus)
     grids = gen_factory.small_scope(3 if quick else 5)
     cases += grids
     impl = run_impl(exe, cases)
     model = vlib.run_cases(vlib.driver_cmd(), cases)
+    # the type checker of the model against cel-go, on every expression the generator can produce
+    cel_case = gen_factory.cel_case()
+    cel_impl = run_impl(exe, [cel_case])[0]
+    cel_model = vlib.run_cases(vlib.driver_cmd(), [cel_case])[0]
+    cel_types = collections.Counter()
+    cel_bad = []
+    if not (isinstance(cel_impl, dict) and isinstance(cel_impl.get("cel"), list) and isinstance(cel_model, dict)
+            and isinstance(cel_model.get("res", {}).get("cel"), list)
+            and len(cel_impl["cel"]) == len(cel_case["exprs"]) == len(cel_model["res"]["cel"])):
+        cel_bad.append(("<the whole table>", cel_impl, cel_model))
+    else:
+        for src, a, b in zip(cel_case["exprs"], cel_impl["cel"], cel_model["res"]["cel"]):
+            cel_types[f"{a['type']} / {'accepted' if a['accepted'] else 'refused'}"] += 1
+            if a != b:
+                cel_bad.append((src, a, b))
 
     bad = []
     reasons = collections.Counter()
@@ -290,6 +337,9 @@ def run(R):
     nontriv = set()
     multi_key = disordered = overrides = probes_run = rules_total = 0
     typed = typed_refused = typed_histories = 0
+    cond_classes = collections.Counter()
+    ref_shapes = collections.Counter()
+    type_names = set(gen_factory.ALL_TYPE_NAMES)
     samples, sampled = [], set()
     for k, (c, i, m) in enumerate(zip(cases, impl, model)):
         if not agrees(i, m):
@@ -328,6 +378,13 @@ def run(R):
                 for s in (r.get(lst) or []):
                     if any(v2 in gen_factory.SHARED_IDS for v2 in s["keys"].values()):
                         shared_refs += 1
+                    for v2 in s["keys"].values():
+                        if v2 in type_names:
+                            ref_shapes["named like a mechanism type"] += 1
+                        elif v2 != v2.strip() or v2 != v2.lower():
+                            ref_shapes["catalogue id re-spelled (case / white space)"] += 1
+            for cls in rs.get("conds", []):
+                cond_classes[cls + " / " + v] += 1
             multi_key += 1 if rs["multi_key"] else 0
             disordered += 0 if rs["ordered"] else 1
             overrides += rs["overrides"]
@@ -375,7 +432,12 @@ def run(R):
         "accepted_backtracking_combinations": dict(bt_combo),
         "rules_with_multi_key_steps": multi_key, "rules_with_disordered_execute": disordered,
         "override_payloads": overrides, "probe_requests_executed": probes_run,
-        "lookalike_random_cases": n_look,
+        "lookalike_random_cases": n_look, "expression_override_random_cases": n_expr,
+        "conditions_by_static_type_and_verdict": dict(cond_classes),
+        "references_by_shape": dict(ref_shapes),
+        "cel_expressions_typed_by_model_and_cel_go": len(cel_case["exprs"]),
+        "cel_static_types_and_compile_verdicts": dict(cel_types),
+        "mechanism_type_names_read_from_repo": gen_factory.TYPE_NAMES,
         "typed_override_values": typed, "typed_override_values_refused_by_their_mechanism": typed_refused,
         "histories_with_typed_overrides": typed_histories,
         "samples": samples or [slim(cases[0])],
@@ -391,7 +453,13 @@ def run(R):
                        "every mechanism type x every family of values that print alike (string / number / bool / nil, "
                        "string with k:v pairs / map, string '[a b]' / list, nested / flattened, spellings of one "
                        "duration) x every ordered pair of members as a history of two rules of one factory, and "
-                       "the whole family forwards and backwards" % (3 if quick else 5),
+                       "the whole family forwards and backwards; every kind x every id the catalogue does not "
+                       "define for it (the names of all mechanism types read from the repo, ids of other kinds, "
+                       "re-spelled ids) with and without default rule; every kind of step x every CEL expression of "
+                       "the table (boolean, boolean over dyn sub-terms, int / string / list / map, dyn-typed "
+                       "attribute and index chains, syntax errors, undeclared names / no overload) as its `if`, also "
+                       "inside the default rule; cel / remote authorizer x every expression and malformed shape as "
+                       "rule-level `expressions`" % (3 if quick else 5),
     })
     R.assumptions += [
         "the catalogue, the override payloads and the condition literals used by the generator stand for all "
@@ -402,8 +470,15 @@ def run(R):
         "what the variant then shows is computed by the model from the value (Model/FactoryOverride.lean: strict "
         "decoding of subject / realm / allow_fallback_on_error / continue_pipeline_on_error / cache_ttl / values / "
         "headers, unknown keys refused) and validated by the correspondence run; other keys the real mechanisms accept "
-        "on the rule level (payload, expressions, forward_* lists) are not in that stream; `null` as a template entry "
-        "(accepted at load, nil dereference at execution: fixes/C14-1) is not generated",
+        "on the rule level (payload, forward_* lists) are not in that stream; `expressions` of the cel / remote "
+        "authorizers are (entries {expression, message}, every expression typed by the model); \"\" / null as a "
+        "template entry are refused at load since fix C14-1 (4c2a454) and part of the stream",
+        "CEL: the static result type of a condition / expression is computed by the model from the expression TREE "
+        "(Model/FactoryCel.lean, a fragment: literals, one-element list / map literals, the variables of "
+        "cellib.Library(), selection, indexing, == != && || ! ?:, the member / global functions in use); the text "
+        "heimdall compiles is printed from the same tree by the generator; on every run the model's type is compared "
+        "with cel-go's for every expression of the generator's table; every boolean expression generated holds "
+        "(conditions: holds unless the probe sends X-Skip: 1) for every probe request, CEL evaluation is not modelled",
         "execution semantics of the probe requests (Model/FactoryProbe.lean: fallback between authenticators, "
         "conditions, first applicable error handler, backtracking to a less specific rule) are validated by the "
         "correspondence run, not proved; they belong to properties C01/C02/C04",
@@ -427,7 +502,14 @@ def run(R):
         k, i, m = bad[0]
         what, payload, no_input = report(R, exe, cases, k, i, m)
         R.violation(what, payload, no_input=no_input)
-    R.coverage["disagreements_checked"] = len(bad)
+    for src, a, b in cel_bad[:2]:
+        R.violation(f"the CEL type checker of the model and cel-go (heimdall's environment) disagree on `{src}`: "
+                    f"cel-go {json.dumps(a)[:200]}, model {json.dumps(b)[:200]} — the load-time check of conditions "
+                    "and expressions (result type bool) is no longer what the model describes",
+                    {"case": {"fam": "factory", "op": "cel", "exprs": [src],
+                              "cel": [e for e in cel_case["cel"] if e["src"] == src]},
+                     "impl": a, "model": b}, no_input=not bad)
+    R.coverage["disagreements_checked"] = len(bad) + len(cel_bad)
     if not lean_ok:
         R.violation("theorems of Props/C14.lean no longer check: " + "; ".join(R.lean["failed"])[:600],
                     {"lean_log": R.lean["log"], "failed": R.lean["failed"],
@@ -437,11 +519,22 @@ def run(R):
 def replay(R, path):
     with open(path) as fh:
         p = json.load(fh)
+    if "case" not in p:          # a corpus file: the case itself
+        p = {"case": p}
     harness_env(R)
     exe = vlib.step_harness(R)
 
     def full(c):
         return c if "cat" in c else dict(c, cat=gen_factory.CATALOGUE)
+    if p["case"].get("op") == "cel":
+        i = run_impl(exe, [p["case"]])[0]
+        m = vlib.run_cases(vlib.driver_cmd(), [p["case"]])[0]
+        print("impl :", json.dumps(i))
+        print("model:", json.dumps(m.get("res") if isinstance(m, dict) else m))
+        R.coverage.update({"obligations": 1, "discharged": 1, "checker_cmd": "replay", "trusted_base": []})
+        if not (isinstance(m, dict) and vlib.canon(i) == vlib.canon(m.get("res"))):
+            R.violation("replay still differs: static types of CEL expressions", {"case": p["case"], "impl": i, "model": m})
+        return
     c = full(p["case"])
     history = [full(h) for h in p.get("history", [])]
     i = run_impl(exe, history + [c])[-1]
